@@ -968,6 +968,7 @@ func init() {
 			"integer/float classification as in DESIGN Appendix A: without exponent float iff the text contains '.', with exponent float iff the exact value is non-integral; a float example admits integers, an integer example rejects floats",
 			"precision n bounds the fractional digits of the normalised expansion; String() of a Number is the normalised expansion",
 			"numerals -?0[eE][+-]?digits not being recognised is one known finding (pinned by the repository's own TestNewNumber/negative); everything else about them is judged",
+			"exponents are drawn with absolute value below a few hundred; the library expands exponents into digits and (since fix 4d45563) rejects numerals whose exponent exceeds 2^20 in absolute value instead of exhausting memory - those are outside the explored domain",
 		},
 		Exhaustive: func(string) bool { return true },
 		Units:      func(tier string, seed uint64) int { return c10LayoutOf(tier).total() },
